@@ -20,6 +20,7 @@ import (
 
 	chain "github.com/comdex-official/comdex/app"
 	assettypes "github.com/comdex-official/comdex/x/asset/types"
+	"github.com/comdex-official/comdex/x/auctionsV2"
 	auctionsV2types "github.com/comdex-official/comdex/x/auctionsV2/types"
 	esmtypes "github.com/comdex-official/comdex/x/esm/types"
 	lendtypes "github.com/comdex-official/comdex/x/lend/types"
@@ -59,6 +60,7 @@ type c08Env struct {
 	appBad   uint64
 	now      int64
 	height   int64
+	funder   sdk.AccAddress // untracked account that tops up the liquidation module's app reserve
 }
 
 func c08min(a, b int) int {
@@ -204,7 +206,10 @@ func c08Setup(t *testing.T, tr *Trace, rng *Rng, variant int) *c08Env {
 	}
 
 	// liquidation whitelisting + auction params (x/liquidationsV2/keeper/msg_server_test.go)
-	dutch := liqV2types.DutchAuctionParam{Premium: c08dec("0.1"), Discount: c08dec("0.1"), DecrementFactor: sdk.NewInt(1)}
+	// premium / discount of the Dutch auction: the repository's own fixture (0.1 / 0.1: the collateral is sold at a tenth of the oracle
+	// price and runs out, the app reserve has to cover the rest) and two sensible ones (collateral suffices, the rest returns to the owner)
+	dp := [][2]string{{"1.2", "0.7"}, {"0.1", "0.1"}, {"1.05", "0.9"}}[(variant/2)%3]
+	dutch := liqV2types.DutchAuctionParam{Premium: c08dec(dp[0]), Discount: c08dec(dp[1]), DecrementFactor: sdk.NewInt(1)}
 	app.NewliqKeeper.SetLiquidationWhiteListing(ctx, liqV2types.LiquidationWhiteListing{AppId: e.appOK, Initiator: true, IsDutchActivated: true, DutchAuctionParam: &dutch, IsEnglishActivated: false, KeeeperIncentive: c08dec("0.1")})
 	app.NewaucKeeper.SetAuctionParams(ctx, auctionsV2types.AuctionParams{AuctionDurationSeconds: 3600, Step: c08dec("0.1"), WithdrawalFee: c08dec("0.0"), ClosingFee: c08dec("0.0"), MinUsdValueLeft: 100000, BidFactor: c08dec("0.1"), LiquidationPenalty: c08dec("0.1"), AuctionBonus: c08dec("0.0")})
 
@@ -228,6 +233,8 @@ func c08Setup(t *testing.T, tr *Trace, rng *Rng, variant int) *c08Env {
 			}
 		}
 	}
+	e.funder = make(sdk.AccAddress, 20)
+	e.funder[0], e.funder[19] = 0xF0, 0xC8
 	e.accts = append(e.accts, c08Acct{c08AuctionAcct, authtypes.NewModuleAddress(auctionsV2types.ModuleName)})
 	e.accts = append(e.accts, c08Acct{c08ReserveAcct, authtypes.NewModuleAddress(lendtypes.ModuleName)})
 	for _, p := range k.GetPools(ctx) {
@@ -262,7 +269,8 @@ func (e *c08Env) cfgLines() {
 		tr.Line("lend.cfg.asset", u(a.Id), a.Decimals.String())
 	}
 	for _, r := range k.GetAllAssetRatesParams(ctx) {
-		tr.Line("lend.cfg.rates", u(r.AssetID), r.Ltv.BigInt().String(), r.ELtv.BigInt().String(), u(r.CAssetID), c08b(r.IsIsolated), c08b(r.EnableStableBorrow))
+		tr.Line("lend.cfg.rates", u(r.AssetID), r.Ltv.BigInt().String(), r.ELtv.BigInt().String(), u(r.CAssetID), c08b(r.IsIsolated), c08b(r.EnableStableBorrow),
+			r.LiquidationPenalty.BigInt().String(), r.ELiquidationPenalty.BigInt().String())
 	}
 	for _, p := range k.GetPools(ctx) {
 		var ds []string
@@ -284,7 +292,7 @@ func (e *c08Env) cfgLines() {
 	tr.Line("lend.init", e.state()...)
 }
 
-// state returns the nine projection fields: counters and block time, lends, borrows, totals, balances, prices, emergency flags,
+// state returns the eleven projection fields (the last two: reserve book-keeping records, locked vaults of handed-over borrows): counters and block time, lends, borrows, totals, balances, prices, emergency flags,
 // accrual state of the borrows, accrual state of the lends.
 func (e *c08Env) state() []string {
 	ctx, k := e.ctx, e.app.LendKeeper
@@ -308,7 +316,8 @@ func (e *c08Env) state() []string {
 		return stats[i].AssetID < stats[j].AssetID
 	})
 	for _, s := range stats {
-		ss = append(ss, strings.Join([]string{u(s.PoolID), u(s.AssetID), s.TotalLend.String(), s.TotalBorrowed.String(), s.TotalStableBorrowed.String(), s.TotalInterestAccumulated.String()}, ":"))
+		ss = append(ss, strings.Join([]string{u(s.PoolID), u(s.AssetID), s.TotalLend.String(), s.TotalBorrowed.String(), s.TotalStableBorrowed.String(), s.TotalInterestAccumulated.String(),
+			c08dots(s.LendIds), c08dots(s.BorrowIds)}, ":"))
 	}
 	for _, a := range e.accts {
 		for _, id := range e.assetIDs {
@@ -354,7 +363,65 @@ func (e *c08Env) state() []string {
 		}
 		al = append(al, strings.Join([]string{u(l.ID), l.GlobalIndex.BigInt().String(), i64(l.LastInteractionTime.Unix()), trk}, ":"))
 	}
-	return []string{u(k.GetUserLendIDCounter(ctx)) + "," + u(k.GetUserBorrowIDCounter(ctx)) + "," + i64(ctx.BlockTime().Unix()), strings.Join(ls, "|"), strings.Join(bs, "|"), strings.Join(ss, "|"), strings.Join(ks, "|"), strings.Join(ps, "|"), joinU(killed) + "/" + joinU(dep), strings.Join(ab, "|"), strings.Join(al, "|")}
+	// reserve book-keeping per asset: ReserveBuybackAssetData, AllReserveStats, and the sum of the FundReserveBal entries
+	funded := map[uint64]sdk.Int{}
+	if fb, found := k.GetFundReserveBal(ctx); found {
+		for _, f := range fb.FundReserveBalance {
+			if cur, ok := funded[f.AssetID]; ok {
+				funded[f.AssetID] = cur.Add(f.AmountIn.Amount)
+			} else {
+				funded[f.AssetID] = f.AmountIn.Amount
+			}
+		}
+	}
+	var rs []string
+	for _, id := range e.assetIDs {
+		z := sdk.ZeroInt()
+		rec := []sdk.Int{z, z, z, z, z, z, z, z}
+		if r, found := k.GetReserveBuybackAssetData(ctx, id); found {
+			rec[0], rec[1] = r.ReserveAmount, r.BuybackAmount
+		}
+		if a, found := k.GetAllReserveStatsByAssetID(ctx, id); found {
+			rec[2], rec[3], rec[4], rec[5], rec[6] = a.AmountOutFromReserveToLenders, a.AmountOutFromReserveForAuction, a.AmountInFromLiqPenalty, a.AmountInFromRepayments, a.TotalAmountOutToLenders
+		}
+		if f, ok := funded[id]; ok {
+			rec[7] = f
+		}
+		any := false
+		parts := []string{u(id)}
+		for _, x := range rec {
+			if x.IsNil() {
+				x = z
+			}
+			if !x.IsZero() {
+				any = true
+			}
+			parts = append(parts, x.String())
+		}
+		if any {
+			rs = append(rs, strings.Join(parts, ":"))
+		}
+	}
+	// second-generation locked vaults of handed-over borrows
+	var vs []string
+	lvs := e.app.NewliqKeeper.GetLockedVaults(ctx)
+	sort.Slice(lvs, func(i, j int) bool { return lvs[i].OriginalVaultId < lvs[j].OriginalVaultId })
+	for _, lv := range lvs {
+		if lv.InitiatorType == "lend" {
+			vs = append(vs, strings.Join([]string{u(lv.OriginalVaultId), u(e.userNum[lv.Owner]), lv.TargetDebt.Amount.String(), lv.FeeToBeCollected.String()}, ":"))
+		}
+	}
+	return []string{u(k.GetUserLendIDCounter(ctx)) + "," + u(k.GetUserBorrowIDCounter(ctx)) + "," + i64(ctx.BlockTime().Unix()), strings.Join(ls, "|"), strings.Join(bs, "|"), strings.Join(ss, "|"), strings.Join(ks, "|"), strings.Join(ps, "|"), joinU(killed) + "/" + joinU(dep), strings.Join(ab, "|"), strings.Join(al, "|"),
+		strings.Join(rs, "|"), strings.Join(vs, "|")}
+}
+
+// c08dots prints an id list with "." as separator (inside a ":"-separated record)
+func c08dots(xs []uint64) string {
+	var p []string
+	for _, x := range xs {
+		p = append(p, u(x))
+	}
+	return strings.Join(p, ".")
 }
 
 // ---------------------------------------------------------------------------------------------- external values
@@ -487,6 +554,9 @@ func (e *c08Env) emit(name string, outcome string, args ...string) {
 	if name == "handover" {
 		// own trace kind: the liquidation hand-over is a call site of its own (known_findings.d/C08.json ties D19 to it)
 		e.tr.Line("lend.handover", f[1:]...)
+	} else if name == "auctionClose" {
+		// own trace kind: the closing bid of the second-generation auction (MsgCloseDutchAuctionForBorrow)
+		e.tr.Line("lend.close", f[1:]...)
 	} else {
 		e.tr.Line("lend.op", f...)
 	}
@@ -736,6 +806,160 @@ func (e *c08Env) advance(sec int64) {
 	e.now += sec
 	e.height++
 	e.ctx = e.ctx.WithBlockTime(time.Unix(e.now, 0).UTC()).WithBlockHeight(e.height)
+	if len(e.app.NewaucKeeper.GetAuctions(e.ctx)) > 0 {
+		// price decay / restart of the open Dutch auctions (auction records only; the lending books are not touched — the next line's
+		// projection would show it otherwise)
+		if p, _ := try(func() { auctionsV2.BeginBlocker(e.ctx, e.app.NewaucKeeper) }); p {
+			e.tr.Count("auction:beginblock:panic")
+		}
+	}
+}
+
+// ---------------------------------------------------------------------------------------------- after the hand-over: bids
+
+type c08Auc struct {
+	auc auctionsV2types.Auction
+	lv  liqV2types.LockedVault
+}
+
+// lendAuctions lists the open second-generation auctions of handed-over borrows, by borrow id.
+func (e *c08Env) lendAuctions() []c08Auc {
+	var out []c08Auc
+	for _, a := range e.app.NewaucKeeper.GetAuctions(e.ctx) {
+		lv, found := e.app.NewliqKeeper.GetLockedVault(e.ctx, a.AppId, a.LockedVaultId)
+		if found && lv.InitiatorType == "lend" {
+			out = append(out, c08Auc{a, lv})
+		}
+	}
+	sort.Slice(out, func(i, j int) bool { return out[i].lv.OriginalVaultId < out[j].lv.OriginalVaultId })
+	return out
+}
+
+// opBid delivers MsgPlaceMarketBid. An accepted partial fill is a `bid` line, an accepted closing bid an `auctionClose` line (trace
+// kind lend.close); the amounts that changed hands on the auction side (property C10) are read off the balances and printed as inputs.
+// A refused bid changes nothing and prints nothing — except a PANIC of a bid that covers the whole target: that is the lend branch
+// of the close failing, printed as a rejected auctionClose so that the model has to agree.
+func (e *c08Env) opBid(usr c08Acct, a c08Auc, amt sdk.Int) string {
+	bk := e.app.BankKeeper
+	debt, coll := a.auc.DebtToken.Denom, a.auc.CollateralToken.Denom
+	ownerAddr, _ := sdk.AccAddressFromBech32(a.lv.Owner)
+	liqMod := authtypes.NewModuleAddress(liqV2types.ModuleName)
+	bal := func(addr sdk.AccAddress, d string) sdk.Int { return bk.GetBalance(e.ctx, addr, d).Amount }
+	ud0, uc0, oc0, r0 := bal(usr.addr, debt), bal(usr.addr, coll), bal(ownerAddr, coll), bal(liqMod, debt)
+	orphanBridge := false // a cross-pool borrow whose lend position was deleted by the hand-over
+	if b, f := e.app.LendKeeper.GetBorrow(e.ctx, a.lv.OriginalVaultId); f {
+		_, lendFound := e.app.LendKeeper.GetLend(e.ctx, b.LendingID)
+		orphanBridge = !lendFound && b.BridgedAssetAmount.Amount.IsPositive()
+		if orphanBridge {
+			e.tr.Count("bid:crossPoolBorrowOfDeletedLend")
+		}
+	}
+	res := e.deliver(auctionsV2types.NewMsgPlaceMarketBid(usr.addr.String(), a.auc.AuctionId, sdk.Coin{Denom: debt, Amount: amt}))
+	bid := u(a.lv.OriginalVaultId)
+	if res != "ok" {
+		e.tr.Count("bid:" + res)
+		// a panic of the bank call inside MsgCloseDutchAuctionForBorrow (empty module name: the lend position that names the collateral's
+		// pool is gone) — the lend branch of the close; every other refusal is the auction side's (property C10)
+		if res == "panic" && amt.GTE(a.auc.DebtToken.Amount) && orphanBridge {
+			e.tr.Count("close:stuck:lendDeleted")
+			e.emit("auctionClose", res, u(usr.num), bid, a.auc.DebtToken.Amount.String(), "0", "0", "0")
+		}
+		return res
+	}
+	paid := ud0.Sub(bal(usr.addr, debt))
+	recv := bal(usr.addr, coll).Sub(uc0)
+	if _, err := e.app.NewaucKeeper.GetAuction(e.ctx, a.auc.AuctionId); err == nil {
+		e.emit("bid", res, u(usr.num), bid, paid.String(), recv.String())
+		return res
+	}
+	left := sdk.ZeroInt()
+	if !ownerAddr.Equals(usr.addr) {
+		left = bal(ownerAddr, coll).Sub(oc0)
+	}
+	topUp := r0.Sub(bal(liqMod, debt))
+	if topUp.IsPositive() {
+		e.tr.Count("close:appReserveTopUp")
+	}
+	if left.IsPositive() {
+		e.tr.Count("close:leftoverToOwner")
+	}
+	if ownerAddr.Equals(usr.addr) {
+		e.tr.Count("close:bidderIsOwner")
+	}
+	e.emit("auctionClose", res, u(usr.num), bid, paid.String(), recv.String(), left.String(), topUp.String())
+	return res
+}
+
+// genBid: a partial fill or a closing bid on one of the open auctions.
+func (e *c08Env) genBid() {
+	as := e.lendAuctions()
+	if len(as) == 0 {
+		e.tr.Count("gen:bid:noAuction")
+		return
+	}
+	a := as[e.rng.Intn(len(as))]
+	usr := e.user()
+	debt := a.auc.DebtToken.Amount
+	var amt sdk.Int
+	switch e.rng.Intn(5) {
+	case 0, 1:
+		// partial fill: what is left must stay above the dust limit
+		if debt.GT(sdk.NewInt(4)) && debt.IsInt64() {
+			amt = e.rint(1, debt.Int64()/2)
+		} else {
+			amt = sdk.NewInt(1)
+		}
+	case 2:
+		amt = e.around(debt)
+	default:
+		amt = debt.Add(e.rint(0, 1000))
+	}
+	if !amt.IsPositive() {
+		amt = sdk.NewInt(1)
+	}
+	e.opBid(usr, a, amt)
+}
+
+// genCrash: the price of a collateral asset falls by 35-60 %, every borrow is offered to the liquidation, some of the new auctions are
+// filled at once; the price may recover afterwards.
+func (e *c08Env) genCrash() {
+	asset := e.base[e.rng.Intn(len(e.base))]
+	// prefer the collateral asset of some open borrow
+	if b, ok := e.pickBorrow(); ok {
+		pair, _ := e.app.LendKeeper.GetLendPair(e.ctx, b.PairID)
+		asset = pair.AssetIn
+	}
+	twa, found := e.app.MarketKeeper.GetTwa(e.ctx, asset)
+	if !found || !twa.IsPriceActive || twa.Twa < 1000 {
+		return
+	}
+	old := twa.Twa
+	e.tr.Count("gen:crash")
+	e.opSetPrice(asset, old*uint64(e.rng.Range(40, 65))/100)
+	e.genLiquidate()
+	e.advance(int64(e.rng.Range(1, 1800)))
+	n := len(e.lendAuctions())
+	for i := 0; i < n && i < 4; i++ {
+		if e.rng.Chance(70) {
+			e.genBid()
+		}
+	}
+	if e.rng.Chance(60) {
+		e.opSetPrice(asset, old*uint64(e.rng.Range(85, 110))/100)
+	}
+}
+
+// fundAppReserve tops up the liquidation module's reserve of the app for the asset (MsgAppReserveFunds) from the untracked funder.
+func (e *c08Env) fundAppReserve(asset uint64, amt sdk.Int) {
+	c := sdk.NewCoins(e.coin(asset, amt))
+	if err := e.app.BankKeeper.MintCoins(e.ctx, liqV2types.ModuleName, c); err != nil {
+		e.t.Fatal(err)
+	}
+	if err := e.app.BankKeeper.SendCoinsFromModuleToAccount(e.ctx, liqV2types.ModuleName, e.funder, c); err != nil {
+		e.t.Fatal(err)
+	}
+	res := e.deliver(liqV2types.NewMsgAppReserveFundsRequest(e.funder.String(), e.appOK, asset, e.coin(asset, amt)))
+	e.tr.Count("appReserve:" + res)
 }
 
 // ---------------------------------------------------------------------------------------------- generators
@@ -1433,6 +1657,55 @@ func c08CorpusGuards(t *testing.T, tr *Trace, rng *Rng) {
 	e.opCloseLend(u1, 1)
 }
 
+// c08CorpusAuctionClose — directed coverage of the life after the hand-over: a same-pool borrow is handed over, filled in two steps
+// (partial fill, closing bid) and disappears; the lend position stays debited; a cross-pool borrow that pledged the whole position
+// is handed over (the position is deleted) and its closing bid cannot succeed (see notes/C08.md, observation on
+// MsgCloseDutchAuctionForBorrow).
+func c08CorpusAuctionClose(t *testing.T, tr *Trace, rng *Rng, variant int) {
+	e := c08Setup(t, tr, rng, variant)
+	e.cfgLines()
+	tr.Count("corpus")
+	a1, a2, a4 := e.base[0], e.base[1], e.base[3]
+	u1, u2, u3, u4 := e.users[0], e.users[1], e.users[2], e.users[3]
+	n := func(x int64) sdk.Int { return sdk.NewInt(x) }
+	for _, a := range e.base {
+		e.fundAppReserve(a, n(20_000_000_000))
+	}
+	e.opLend(u2, a2, e.denomOf[a2], n(50_000_000_000), 1, e.appOK) // lend 1
+	e.opLend(u3, a1, e.denomOf[a1], n(10_000_000_000), 1, e.appOK) // lend 2
+	e.opLend(u4, a4, e.denomOf[a4], n(20_000_000_000), 2, e.appOK) // lend 3
+	e.opLend(u1, a1, e.denomOf[a1], n(1_000_000_000), 1, e.appOK)  // lend 4
+	e.opFundModule(u4, 1, e.base[2], e.coin(e.base[2], n(10_000_000_000)))
+	e.opFundModule(u4, 2, e.base[2], e.coin(e.base[2], n(10_000_000_000)))
+	e.opFundReserve(u4, a2, e.coin(a2, n(1_000_000_001)))
+	// same-pool borrow of u3: 6e9 cA1 (of 10e9) pledged for A2 at the LTV limit
+	max := e.maxLoan(a1, n(6_000_000_000), a2, c08dec("0.7"), sdk.ZeroInt())
+	e.opBorrow(u3, 2, 3, false, sdk.Coin{Denom: e.cDenom(a1), Amount: n(6_000_000_000)}, e.coin(a2, max))
+	// cross-pool borrow of u1 (pair 15: A1 → A4 of pool 2) pledging the WHOLE position
+	// (second LTV check on the bridged transit asset A3, LTV 0.8: at most 0.7 * 0.8 of the collateral value)
+	maxX := e.maxLoan(a1, n(1_000_000_000), a4, c08dec("0.7"), sdk.ZeroInt()).MulRaw(76).QuoRaw(100)
+	e.opBorrow(u1, 4, 15, false, sdk.Coin{Denom: e.cDenom(a1), Amount: n(1_000_000_000)}, e.coin(a4, maxX))
+	e.advance(40 * 86400)
+	e.opCalc(u3)
+	twa, _ := e.app.MarketKeeper.GetTwa(e.ctx, a1)
+	e.opSetPrice(a1, twa.Twa*6/10)
+	e.genLiquidate()
+	e.advance(600)
+	for _, a := range e.lendAuctions() {
+		if a.lv.OriginalVaultId == 1 {
+			e.opBid(u4, a, a.auc.DebtToken.Amount.QuoRaw(3))
+		}
+	}
+	e.advance(600)
+	e.opWithdraw(u3, 2, e.denomOf[a1], n(1_000_000)) // the rest of the position stays usable while the auction runs
+	for _, a := range e.lendAuctions() {
+		e.opBid(u2, a, a.auc.DebtToken.Amount.AddRaw(5))
+	}
+	e.opCalc(u3)
+	e.opCalc(u2)
+	e.opWithdraw(u3, 2, e.denomOf[a1], n(1_000_000))
+}
+
 // ---------------------------------------------------------------------------------------------- test
 
 func TestC08(t *testing.T) {
@@ -1443,6 +1716,8 @@ func TestC08(t *testing.T) {
 	c08CorpusHandover(t, tr, rng)
 	c08CorpusTwinLends(t, tr, rng)
 	c08CorpusGuards(t, tr, rng)
+	c08CorpusAuctionClose(t, tr, rng, 0)
+	c08CorpusAuctionClose(t, tr, rng, 2)
 	seqs := scale(24, 300)
 	maxOps := scale(90, 160)
 	for s := 0; s < seqs; s++ {
@@ -1465,6 +1740,12 @@ func TestC08(t *testing.T) {
 				if rng.Chance(75) {
 					e.opFundReserve(e.user(), a, e.coin(a, e.rint(100_000_000, 3_000_000_000)))
 				}
+			}
+		}
+		for _, a := range e.base {
+			// the liquidation module's app reserve covers the debt an auction cannot recover once the collateral is sold out
+			if rng.Chance(60) {
+				e.fundAppReserve(a, e.rint(1_000_000, 50_000_000_000))
 			}
 		}
 		nops := rng.Range(maxOps/2, maxOps)
@@ -1490,6 +1771,9 @@ func TestC08(t *testing.T) {
 				e.advance(int64(rng.Range(30*86400, 400*86400)))
 			default:
 				e.advance(int64(rng.Range(0, 60)))
+			}
+			if rng.Chance(12) && len(e.lendAuctions()) > 0 {
+				e.genBid()
 			}
 			bad := rng.Chance(18)
 			if bad {
@@ -1525,8 +1809,12 @@ func TestC08(t *testing.T) {
 				e.opCalc(e.user())
 			case p < 95:
 				e.genPrice()
-			case p < 98:
+			case p < 95:
 				e.genLiquidate()
+			case p < 96:
+				e.genBid()
+			case p < 98:
+				e.genCrash()
 			case p < 99 && rng.Chance(40):
 				// emergency controls: the kill switch is toggled (it stays on for the next few messages), late in a history a pool
 				// may be depreciated for good
@@ -1552,8 +1840,21 @@ func TestC08(t *testing.T) {
 				e.opFundModule(usr, ps[rng.Intn(len(ps))], a, e.coin(a, e.rint(1, 2_000_000_000)))
 			}
 		}
+		// wind down: closing bids on the auctions that are still open, then the owners look at their positions again
+		e.advance(int64(rng.Range(1, 3000)))
+		for _, a := range e.lendAuctions() {
+			if rng.Chance(80) {
+				e.opBid(e.user(), a, a.auc.DebtToken.Amount.AddRaw(int64(rng.Range(0, 3))))
+			}
+		}
+		for _, usr := range e.users {
+			if rng.Chance(50) {
+				e.opCalc(usr)
+			}
+		}
 		ls := e.app.LendKeeper.GetAllLend(e.ctx)
 		bs := e.app.LendKeeper.GetAllBorrow(e.ctx)
+		tr.Count(fmt.Sprintf("final:openAuctions:%d", c08min(len(e.lendAuctions()), 9)))
 		tr.Count(fmt.Sprintf("final:lends:%d", c08min(len(ls), 9)))
 		tr.Count(fmt.Sprintf("final:borrows:%d", c08min(len(bs), 9)))
 	}
